@@ -169,6 +169,7 @@ func (e *Engine) harnessAPI(name string, args []Value, fn *ssa.Function) (Value,
 		e.preWrites = 0
 		e.preWriteLog = nil
 		e.preWriteIDs = nil
+		e.globalWrites = 0
 		return nil, true
 	case "vUnfreeze":
 		e.frozen = 0
